@@ -40,6 +40,7 @@ type l3Driver struct {
 	sidGen         int   // key generations handed out to did:sid rotations
 	govProposals   int
 	jumped         bool // the one long advance across an expiry has been made
+	madeValidator  map[int]bool
 	params0        string // node parameters at the start (to label applied governance changes)
 	timeJump bool        // the next block's header time is the wall clock
 }
@@ -363,7 +364,7 @@ func (d *l3Driver) setup() {
 func (d *l3Driver) genStep(t *rapid.T) *Action {
 	s, cfg := d.s, d.cfg
 	var a *Action
-	switch rapid.IntRange(0, 23).Draw(t, "step") {
+	switch rapid.IntRange(0, 24).Draw(t, "step") {
 	case 0, 1, 2:
 		a = cfg.GenStoreNew(t, s)
 		if a != nil {
@@ -409,6 +410,19 @@ func (d *l3Driver) genStep(t *rapid.T) *Action {
 		a = d.govParamArm(t)
 	case 20:
 		a = d.genCapacity(t)
+	case 23:
+		// a storage node becomes a validator operator (once per account): the self-delegation is the
+		// first delegation of a validator that has no shares yet
+		n := rapid.SampledFrom([]int{3, 4}).Draw(t, "newValidator")
+		if !d.madeValidator[n] {
+			if d.madeValidator == nil {
+				d.madeValidator = map[int]bool{}
+			}
+			d.madeValidator[n] = true
+			a = NewAction("create_validator", n)
+			a.Amount = rapid.SampledFrom([]int64{1, 1000, 100_000_000}).Draw(t, "selfBond")
+			d.labels["create-validator"]++
+		}
 	case 21:
 		a = d.genSimulateOnly(t)
 	case 22:
